@@ -27,6 +27,8 @@ Side regimes get their own mechanism keys (structural features of the instance, 
    statement's quantifier speaks of magnitudes over six decades, exact zero is its boundary);
  - 'real-inv-placeholder-constants'  the matrix-inversion real test leaves hard-coded 1e-18 / 1e18 placeholders in C / L;
    instances where the harness predicts their effect above ARTEFACT_MAX are judged under that key.
+ - cnls cells (Y, any options) and (Z, add_capacitance) have their own keys 'cnls-admittance-local-minimum' and
+   'cnls-impedance-capacitance-local-minimum' (optimiser stalls from the fixed start values).
 """
 import json
 import warnings
@@ -63,7 +65,7 @@ PAR_TOL = 1e-4        # linear variants: contribution-weighted parameter error r
 TAU_TOL = 1e-10       # relative
 CNLS_RES_TOL = 1e-2
 CNLS_PAR_TOL = 1e-1
-ARTEFACT_MAX = 1e-7   # predicted effect of the real-inv placeholder constants above which the instance is keyed separately
+ARTEFACT_MAX = 1e-8   # predicted effect of the real-inv placeholder constants above which the instance is keyed separately
 
 # Conditioning gate.  ratio and perdec are the property's own words (DESIGN C07 (i), (ii)); the rest bounds the rounding
 # error of the solver class in units of machine epsilon (kk_model.gate_stats):
@@ -202,7 +204,10 @@ def gen_instance(rng, cell, tier):
             z = rng.random(nv) < 0.3
             z[1 + int(rng.integers(0, n))] = False
             var = np.where(z, 0.0, var)
-    Z = km.impedance(f, tau, var, adm, add_c, add_l)
+    with np.errstate(all="ignore"):
+        Z = km.impedance(f, tau, var, adm, add_c, add_l)
+    if not (np.all(np.isfinite(Z.real)) and np.all(np.isfinite(Z.imag)) and np.abs(Z).min() > 0):
+        return gen_instance(rng, cell, tier)  # exact cancellation to 0 or overflow: not a spectrum; draw again
     asc = bool(rng.random() < 0.5)
     ff, ZZ = (f, Z) if asc else (f[::-1], Z[::-1])
     return {
@@ -267,7 +272,8 @@ def check_instance(inst):
                      "msg": f"[{cname} N={len(f)} f={f.min():.3g}..{f.max():.3g} Hz num_RC={n} log_F_ext={x:.3g}] {msg}",
                      "witness": {"cell": cname, "gate": {k: float(v) for k, v in st.items()}, "inside_gate": bool(inside), "replay_case": replay}})
 
-    out = {"viol": viol, "inside": inside, "obs": None, "stats": st, "cell": cname, "tags": tags + (["placeholder-constants"] if placeholder else [])}
+    out = {"viol": viol, "inside": inside, "obs": None, "stats": st, "cell": cname, "finding_cell": None,
+           "tags": tags + (["placeholder-constants"] if placeholder else [])}
     try:
         res = observe(inst)
     except Exception as e:  # the library must complete on every instance, in or out of the gate
@@ -330,8 +336,11 @@ def check_instance(inst):
         fk = None
         if known_cell:
             fk = "C07/cnls-admittance-local-minimum"
+        elif test == "cnls" and add_c:
+            fk = "C07/cnls-impedance-capacitance-local-minimum"
         elif placeholder:
             fk = f"C07/real-inv-placeholder-constants:{rep}"
+        out["finding_cell"] = fk
         res_all = max(obs["res"], obs.get("res_own", 0.0))
         if not (res_all <= rt):
             bad("residual", f"max |relative residual| {obs['res']:.3g} (recomputed from result.impedances: {obs.get('res_own', float('nan')):.3g}) > {rt:g} "
@@ -353,7 +362,7 @@ def gen_cases(tier, seed):
     if tier == "quick":
         nb_lin, per_cell, nb_cnls, cn_per = 96, 10, 32, 3
     else:
-        nb_lin, per_cell, nb_cnls, cn_per = 2400, 10, 320, 6
+        nb_lin, per_cell, nb_cnls, cn_per = 2000, 10, 200, 6
     cases = []
     for i in range(nb_cnls):  # cnls first: the slow cases are spread evenly over the shards
         cases.append({"kind": "cnls", "seed": [int(seed), 7, i], "cells": [list(CNLS_CELLS[(i * cn_per + j) % len(CNLS_CELLS)]) for j in range(cn_per)], "tier": tier})
@@ -415,12 +424,12 @@ def run_case(case):
             cnt(f"inside:{cname}")
             cnt("inside_gate")
             keys.append((cname, len(inst["f"]), inst["num_RC"], inst["log_F_ext"], tuple(inst["var"])))
-            special = (inst["test"] == "cnls" and inst["adm"]) or "placeholder-constants" in out["tags"]
-            if special:  # cells / regimes with an open finding are reported apart so that they do not mask the rest
-                which = "known:cnls/Y" if inst["test"] == "cnls" else f"known:placeholder:{tname}"
-                mx(f"res:{which}", res_all)
-                cnt(f"fail:{which}", int(any(v["key"].startswith(("C07/cnls-admittance", "C07/real-inv-placeholder")) for v in out["viol"])))
-                cnt(f"n:{which}")
+            special = out.get("finding_cell")
+            if special:  # cells / regimes with their own mechanism key are reported apart so that they do not mask the rest
+                which = special.split("/", 1)[1]
+                mx(f"res:[{which}]", res_all)
+                cnt(f"fail:[{which}]", int(any(v["key"] == special for v in out["viol"])))
+                cnt(f"n:[{which}]")
             else:
                 mx(f"res:{cname}", res_all)
                 mx(f"par:{cname}", o.get("par"))
